@@ -63,7 +63,7 @@ def matrices(draw, min_bins=6, max_bins=24, max_chroms=4):
             same[lo:hi, lo:hi] = True
         A[~same if part == "cis" else same] = 0
     rows = [[int(i), int(j), int(A[i, j])] for i, j in zip(*iu) if A[i, j]]
-    return {"sizes": sizes, "offsets": offsets, "rows": rows, "n": n}
+    return {"sizes": sizes, "offsets": offsets, "rows": rows, "n": n, "only_part": part}
 
 
 # the documented defaults of balance_cooler / `cooler balance`: options left out of a call take these values
@@ -112,6 +112,10 @@ def cases(draw, max_bins=24):
     if cscale:
         m = dict(m, rows=[[r[0], r[1], r[2] * cscale] for r in m["rows"]])
     o = draw(options(m["n"], len(m["sizes"])))
+    if m.get("only_part") and draw(st.booleans()):
+        # ... and the run is the one that is left with nothing: every bin then has "no remaining data"
+        o.update(cis_only=m["only_part"] == "trans", trans_only=m["only_part"] == "cis", rescale=draw(st.booleans()))
+        o["omit"] = [k for k in o["omit"] if k != "rescale"]
     if cscale and o["min_count"]:
         o = dict(o, min_count=o["min_count"] * cscale)
     # history: the Cooler object is made while the URI still holds a thinner matrix over the same bins
